@@ -542,3 +542,84 @@ theorem walkBack_links (e : Env) (pool : List Nat) (confH : Nat → Option Nat) 
         · simp [hp, h1, hle, confLe, ih']
 
 end XV.Snapshot
+
+-- ------------------------------------------------------------------ no transaction writes a key twice in a history
+
+namespace XV.Snapshot
+open XV.Chain
+
+/-- the chain of a key only grows along a run of admitted transactions: the old chain is a suffix of the new one -/
+theorem links_run (e : Env) (hids : EnvIds e) (key : String) (l : List Nat) :
+    ∀ (f : View) (l0 : List Ver), RunV e l f → Links e key (f key) l0 →
+      ∃ x, Links e key (runV e l f key) (x ++ l0) := by
+  induction l with
+  | nil => intro f l0 _ h; exact ⟨[], h⟩
+  | cons i rest ih =>
+    intro f l0 hrun h
+    rw [runV_cons]
+    cases hw : writeOff (e.tx i).kout 0 key with
+    | none =>
+      have hs : stepV (e.tx i) f key = f key := by unfold stepV; rw [hw]
+      exact ih _ l0 hrun.2 (by rw [hs]; exact h)
+    | some o =>
+      have hid : (e.tx i).id = i := by
+        rcases envIds_tx e hids i with h2 | h2
+        · exact h2
+        · rw [h2, default_kout] at hw; simp [writeOff] at hw
+      have h1 := links_push e (e.tx i) f key o l0 (by rw [hid]) hrun.1 hw h
+      have hs : stepV (e.tx i) f key = some ((e.tx i).id, o) := by unfold stepV; rw [hw]
+      obtain ⟨x, hx⟩ := ih _ _ hrun.2 (by rw [hs]; exact h1)
+      exact ⟨x ++ [((e.tx i).id, o)], by rw [List.append_assoc]; exact hx⟩
+
+/-- **the writer of the current version of a key is never admitted again** (its chain would have to shrink back to
+what it was before that write, and chains only grow): along any run on top of a view whose version `v` of `key` has a
+finite chain, transaction `v.1` does not occur -/
+theorem no_rewrite (e : Env) (hids : EnvIds e) (key : String) (v : Ver) (l' : List Ver) (f : View) (l : List Nat)
+    (hf : f key = some v) (hl : Links e key (some v) (v :: l')) (hrun : RunV e l f) : v.1 ∉ l := by
+  intro hm
+  obtain ⟨M, N, rfl⟩ := List.append_of_mem hm
+  obtain ⟨r1, r2⟩ := (RunV_append e M (v.1 :: N) f).mp hrun
+  have hadm : AdmV (runV e M f) (e.tx v.1) := r2.1
+  obtain ⟨x, hx⟩ := links_run e hids key M f (v :: l') r1 (by rw [hf]; exact hl)
+  cases hl with
+  | cons _ _ hw hl' =>
+    obtain ⟨ko, h1, h2⟩ := hw
+    have hmem : key ∈ (e.tx v.1).kout.map (·.key) := List.mem_map.mpr ⟨ko, List.mem_of_getElem? h1, h2⟩
+    have hc : citedVer (e.tx v.1) key = runV e M f key := citedVer_view _ _ hadm key hmem
+    have hp : prevOf e v key = citedVer (e.tx v.1) key := rfl
+    rw [hp, hc] at hl'
+    have := congrArg List.length (Links.unique hx hl')
+    simp at this
+    omega
+
+/-- **a transaction that writes a key occurs only once in a run** that starts from a view with a finite chain of
+the key (in particular: from a state without keys) -/
+theorem writer_once (e : Env) (hids : EnvIds e) (key : String) (f0 : View) (l0 : List Ver)
+    (h0 : Links e key (f0 key) l0) (A B : List Nat) (i : Nat) (hrun : RunV e (A ++ i :: B) f0)
+    (hw : writesKey e key i = true) : i ∉ B := by
+  obtain ⟨r1, r2⟩ := (RunV_append e A (i :: B) f0).mp hrun
+  unfold writesKey at hw
+  cases hwo : writeOff (e.tx i).kout 0 key with
+  | none => rw [hwo] at hw; cases hw
+  | some o =>
+    have hid : (e.tx i).id = i := by
+      rcases envIds_tx e hids i with h2 | h2
+      · exact h2
+      · rw [h2, default_kout] at hwo; simp [writeOff] at hwo
+    obtain ⟨x, hx⟩ := links_run e hids key A f0 l0 r1 h0
+    have h1 := links_push e (e.tx i) (runV e A f0) key o (x ++ l0) (by rw [hid]) r2.1 hwo hx
+    have hs : stepV (e.tx i) (runV e A f0) key = some ((e.tx i).id, o) := by unfold stepV; rw [hwo]
+    have := no_rewrite e hids key ((e.tx i).id, o) (x ++ l0) _ B hs h1 r2.2
+    rw [hid] at this
+    exact this
+
+/-- the same for an occurrence in a first part `L1` of the run and any later part -/
+theorem writer_once_split (e : Env) (hids : EnvIds e) (key : String) (f0 : View) (l0 : List Ver)
+    (h0 : Links e key (f0 key) l0) (L1 L2 : List Nat) (i : Nat) (hrun : RunV e (L1 ++ L2) f0)
+    (hw : writesKey e key i = true) (h1 : i ∈ L1) : i ∉ L2 := by
+  obtain ⟨A, B, rfl⟩ := List.append_of_mem h1
+  rw [List.append_assoc, List.cons_append] at hrun
+  have := writer_once e hids key f0 l0 h0 A (B ++ L2) i hrun hw
+  exact fun hm => this (List.mem_append_right _ hm)
+
+end XV.Snapshot
